@@ -6,6 +6,7 @@ CONV = "xsdata.formats.converter"
 
 def register(db):
     P = ["C05"]
+    register_qname_serialize(db)
     # ------------------------------------------------------------------ bool
     db.add(Contract(
         f"{CONV}:BoolConverter.serialize",
@@ -125,4 +126,35 @@ def register(db):
         raises={"ConverterError": True},
         properties=["C05", "C15"],
         note="XmlDate/XmlTime/XmlDateTime.from_string, XmlDuration, XmlPeriod raise only ValueError (decided under C06)",
+    ))
+
+
+def register_qname_serialize(db):
+    """QNameConverter.serialize with a prefix map: a namespace-qualified name comes out as `prefix:local` where the
+    prefix is bound to the name's namespace in the map afterwards and every binding the map had is kept (so the text of
+    QName values written earlier still resolves to what it meant); an unqualified name is its local part; without a
+    map the Clark form is returned."""
+    from pyvc.contracts import Contract
+    CONV = "xsdata.formats.converter"
+
+    def qname_value(mk, base):
+        return mk.obj("xml.etree.ElementTree:QName", {"text": "str"})
+
+    NSMAP = "dict[str|None,str]"
+    FRAME = "forall('str|None', lambda k: implies(k in old(ns_map), k in ns_map and ns_map[k] == old(ns_map)[k]))"
+    db.add(Contract(
+        f"{CONV}:QNameConverter.serialize", variant="with-a-prefix-map",
+        params={"self": f"obj:{CONV}:QNameConverter", "value": qname_value, "ns_map": NSMAP}, kwargs={"known": {}, "open": False},
+        requires=["len(value.text) > 0"],
+        ensures=[("unqualified-name-is-its-local-part", "implies(not clark_split(value.text)[0], result == clark_split(value.text)[1] and same_dict(ns_map, old(ns_map)))"),
+                 ("qualified-name-uses-a-prefix-bound-to-its-namespace",
+                  "implies(clark_split(value.text)[0], exists('str|None', lambda p: p in ns_map and ns_map[p] == clark_split(value.text)[0] and "
+                  "result == ite(p is not None and p != '', p + ':' + clark_split(value.text)[1], clark_split(value.text)[1])))"),
+                 ("existing-bindings-kept", FRAME)],
+        raises={}, returns="str", modifies=["ns_map"], properties=["C05", "C03"],
+    ))
+    db.add(Contract(
+        f"{CONV}:QNameConverter.serialize", variant="without-a-map",
+        params={"self": f"obj:{CONV}:QNameConverter", "value": qname_value, "ns_map": None}, kwargs={"known": {}, "open": False},
+        ensures=[("clark-form", "result == value.text")], raises={}, returns="str", properties=["C05"],
     ))
